@@ -76,30 +76,33 @@ func runNtsEnc(tags string, a []Val) {
 	hdr, tail := a[0].B, a[1].B
 	var pkt nts.Packet
 	pkt.UniqueID.ID = a[2].B
+	var clens, plens []int
 	for _, c := range a[3].L {
 		pkt.Cookies = append(pkt.Cookies, nts.Cookie{Cookie: c.B})
+		clens = append(clens, len(c.B))
 	}
 	for _, c := range a[4].L {
 		pkt.CookiePlaceholders = append(pkt.CookiePlaceholders, nts.CookiePlaceholder{Cookie: c.B})
+		plens = append(plens, len(c.B))
 	}
 	pkt.Auth.Key = a[5].B
 	pkt.Auth.PlainText = a[6].B
-	var b []byte
-	if len(tail) == 0 {
-		b = append([]byte(nil), hdr...)
-		b = b[:len(b):len(b)]
-	} else {
-		b = append(append(make([]byte, 0, len(hdr)+len(tail)), hdr...), tail...)[:len(hdr)]
-	}
+	// what a caller may have left in these fields is not used by the encoder: it draws the nonce itself
+	pkt.Auth.Nonce = []byte("seventeen bytes!!")
+	pkt.Auth.CipherText = []byte{1, 2, 3}
+	b := callerBuffer(hdr, tail)
 	var pan bool
 	withTape(a[7].B, func() { pan = didPanic(func() { nts.EncodePacket(&b, &pkt) }) })
 	if pan {
-		w.Case("nts.enc", tags, fmtVals(a), fmtVals([]Val{VI(1), VBy(nil), VI(0), VL(), VI(0), VL()}))
+		w.Case("nts.enc", tags, fmtVals(a), fmtVals([]Val{VI(1), VBy(nil), VI(0), VL(), VI(0), VL(), VBy(nil), VL(VI(0), VBy(nil))}))
 		return
 	}
 	enc := append([]byte(nil), b...)
+	// the ciphertext an AEAD of our own makes of the same plaintext over the bytes before the authenticator
+	truect := sealOver(enc, specAuthPos(len(a[2].B), clens, plens), a[5].B, a[7].B[:16], a[6].B)
 	var d nts.Packet
 	err := nts.DecodePacket(&d, enc)
+	first, ferr := d.FirstCookie()
 	authOK := false
 	after := VL()
 	if err == nil {
@@ -109,7 +112,96 @@ func runNtsEnc(tags string, a []Val) {
 			after = cookiesVal(d2.Cookies)
 		}
 	}
-	w.Case("nts.enc", tags, fmtVals(a), fmtVals([]Val{VI(0), VBy(enc), VI(ntsErrClass(err)), ntsPktVal(&d), VBool(authOK), after}))
+	w.Case("nts.enc", tags, fmtVals(a), fmtVals([]Val{VI(0), VBy(enc), VI(ntsErrClass(err)), ntsPktVal(&d), VBool(authOK), after,
+		VBy(truect), VL(VBool(ferr == nil), VBy(first))}))
+}
+
+// the slice a caller hands to EncodePacket: hdr, with cap(hdr)-len(hdr) = len(tail) bytes of the
+// caller's backing array behind it
+func callerBuffer(hdr, tail []byte) []byte {
+	if len(tail) == 0 {
+		b := append([]byte(nil), hdr...)
+		return b[:len(b):len(b)]
+	}
+	return append(append(make([]byte, 0, len(hdr)+len(tail)), hdr...), tail...)[:len(hdr)]
+}
+
+func pad4(n int) int { return (n + 3) &^ 3 }
+
+// where the format puts the authenticator behind a 48-byte header
+func specAuthPos(idLen int, cookieLens, phLens []int) int {
+	pos := 48 + 4 + pad4(idLen)
+	for _, l := range cookieLens {
+		pos += 4 + pad4(l)
+	}
+	for _, l := range phLens {
+		pos += 4 + pad4(l)
+	}
+	return pos
+}
+
+// AES-SIV of the plaintext over enc[:pos] (nil if enc is shorter or the key unusable)
+func sealOver(enc []byte, pos int, key, nonce, pt []byte) []byte {
+	if pos > len(enc) {
+		return nil
+	}
+	aead, err := miscreant.NewAEAD("AES-CMAC-SIV", key, 16)
+	if err != nil {
+		return nil
+	}
+	return aead.Seal(nil, nonce, pt, enc[:pos])
+}
+
+// nts.redec: packet bytes, key, nonce tape -> decode error class, decoded packet, then the decoded
+// identifier / cookies / placeholders encoded again: panicked, encoding, decode error class, decoded
+// packet, ciphertext of our own AEAD.  A decoder's output, encoded and decoded again, is the same value.
+func runNtsRedec(tags string, a []Val) {
+	var d nts.Packet
+	err := nts.DecodePacket(&d, a[0].B)
+	if err != nil || len(a[0].B) < 48 {
+		w.Case("nts.redec", tags, fmtVals(a), fmtVals([]Val{VI(ntsErrClass(err)), ntsPktVal(&d), VI(0), VBy(nil), VI(0), VL(), VBy(nil)}))
+		return
+	}
+	var pkt nts.Packet
+	pkt.UniqueID.ID = d.UniqueID.ID
+	var clens, plens []int
+	for _, c := range d.Cookies {
+		pkt.Cookies = append(pkt.Cookies, nts.Cookie{Cookie: c.Cookie})
+		clens = append(clens, len(c.Cookie))
+	}
+	for _, c := range d.CookiePlaceholders {
+		pkt.CookiePlaceholders = append(pkt.CookiePlaceholders, nts.CookiePlaceholder{Cookie: make([]byte, int(c.Length)-4)})
+		plens = append(plens, int(c.Length)-4)
+	}
+	pkt.Auth.Key = a[1].B
+	b := append([]byte(nil), a[0].B[:48]...)
+	var pan bool
+	withTape(a[2].B, func() { pan = didPanic(func() { nts.EncodePacket(&b, &pkt) }) })
+	if pan {
+		w.Case("nts.redec", tags, fmtVals(a), fmtVals([]Val{VI(0), ntsPktVal(&d), VI(1), VBy(nil), VI(0), VL(), VBy(nil)}))
+		return
+	}
+	truect := sealOver(b, specAuthPos(len(pkt.UniqueID.ID), clens, plens), a[1].B, a[2].B[:16], nil)
+	var d2 nts.Packet
+	err2 := nts.DecodePacket(&d2, b)
+	w.Case("nts.redec", tags, fmtVals(a), fmtVals([]Val{VI(0), ntsPktVal(&d), VI(0), VBy(b), VI(ntsErrClass(err2)), ntsPktVal(&d2), VBy(truect)}))
+}
+
+// nts.fmt: bytes before the authenticator, nonce, ciphertext, the bytes before are well-formed ->
+// packet (authenticator appended as the format says, nonce and ciphertext zero-padded to a multiple
+// of 4), decode error class, decoded packet.  Packets as another implementation may send them.
+func runNtsFmt(tags string, a []Val) {
+	prefix, nonce, ct := a[0].B, a[1].B, a[2].B
+	l := 8 + pad4(len(nonce)) + pad4(len(ct))
+	b := append([]byte(nil), prefix...)
+	b = append(b, 0x04, 0x04, byte(l>>8), byte(l), byte(len(nonce)>>8), byte(len(nonce)), byte(len(ct)>>8), byte(len(ct)))
+	b = append(b, nonce...)
+	b = append(b, make([]byte, pad4(len(nonce))-len(nonce))...)
+	b = append(b, ct...)
+	b = append(b, make([]byte, pad4(len(ct))-len(ct))...)
+	var d nts.Packet
+	err := nts.DecodePacket(&d, b)
+	w.Case("nts.fmt", tags, fmtVals(a), fmtVals([]Val{VBy(b), VI(ntsErrClass(err)), ntsPktVal(&d)}))
 }
 
 func cookiesVal(cs []nts.Cookie) Val {
@@ -148,13 +240,7 @@ func runNtsResp(tags string, a []Val) {
 	for _, c := range a[3].L {
 		cookies = append(cookies, c.B)
 	}
-	var b []byte
-	if len(tail) == 0 {
-		b = append([]byte(nil), hdr...)
-		b = b[:len(b):len(b)]
-	} else {
-		b = append(append(make([]byte, 0, len(hdr)+len(tail)), hdr...), tail...)[:len(hdr)]
-	}
+	b := callerBuffer(hdr, tail)
 	var pan bool
 	withTape(a[5].B, func() {
 		pan = didPanic(func() {
@@ -195,13 +281,7 @@ func runNtsReq(tags string, a []Val) {
 		data.Cookie = append(data.Cookie, c.B)
 	}
 	data.C2sKey = a[3].B
-	var b []byte
-	if len(tail) == 0 {
-		b = append([]byte(nil), hdr...)
-		b = b[:len(b):len(b)]
-	} else {
-		b = append(append(make([]byte, 0, len(hdr)+len(tail)), hdr...), tail...)[:len(hdr)]
-	}
+	b := callerBuffer(hdr, tail)
 	var pan bool
 	var id []byte
 	withTape(a[4].B, func() {
@@ -259,7 +339,7 @@ func runNtsPos(tags string, a []Val) {
 		panic(err)
 	}
 	ct := aead.Seal(nil, nonce, pt, prefix)
-	pad := func(n int) int { return (n + 3) &^ 3 }
+	pad := pad4
 	l := 8 + pad(len(nonce)) + pad(len(ct))
 	b := append([]byte(nil), prefix...)
 	b = append(b, 0x04, 0x04, byte(l>>8), byte(l), byte(len(nonce)>>8), byte(len(nonce)), byte(len(ct)>>8), byte(len(ct)))
@@ -295,6 +375,14 @@ func genPlainCookies(r *lib.Rng, n int) ([]byte, []Val) {
 		if body < 24 {
 			break
 		}
+		// other kinds inside the encrypted part (placeholder, identifier, authenticator, unknown):
+		// the receiver must skip them, not take them for cookies
+		if r.Intn(3) == 0 {
+			o := extField(uint16(lib.Pick(r, 0x0304, 0x0304, 0x0104, 0x0404, 0x0704, 0x0205, 0x8204)), nonZero(r.Bytes(4*r.Intn(12))))
+			if len(out)+len(o)+4+body <= n {
+				out = append(out, o...)
+			}
+		}
 		c := nonZero(r.Bytes(body))
 		out = append(out, extField(0x0204, c)...)
 		bodies = append(bodies, VBy(c))
@@ -308,6 +396,11 @@ func extField(ty uint16, v []byte) []byte {
 	out := []byte{byte(ty >> 8), byte(ty), byte((4 + n) >> 8), byte(4 + n)}
 	out = append(out, v...)
 	return append(out, make([]byte, n-len(v))...)
+}
+
+// a field whose value is not padded (as another implementation may send it)
+func rawField(ty uint16, v []byte) []byte {
+	return append([]byte{byte(ty >> 8), byte(ty), byte((4 + len(v)) >> 8), byte(4 + len(v))}, v...)
 }
 
 // offsets of the extension fields of an encoded packet (walk by length, from byte 48)
@@ -401,7 +494,8 @@ func genNtsIn(r *lib.Rng, big bool) []Val {
 	}
 	var tail []byte
 	if r.Bool() {
-		tail = nonZero(r.Bytes(1024 - 48))
+		// capacities: exactly 1024, below (a fresh buffer is made) and above (the first 1024 bytes are used)
+		tail = nonZero(r.Bytes(lib.Pick(r, 976, 976, 976, 1, 100, 975, 977, 1000, 2000)))
 	}
 	pt, bodies := genPlain(r, ptLen), []Val(nil)
 	structured := int64(0)
@@ -470,7 +564,51 @@ func genNts(r *lib.Rng, thorough bool) {
 		if len(a[2].B)%4 != 0 {
 			tags += ",unaligned"
 		}
+		if r.Intn(50) == 0 { // EncodePacket wants exactly the 48-byte NTP header in front
+			a[0] = VBy(r.Bytes(lib.Pick(r, 0, 47, 49, 96)))
+			tags = "badheader"
+		}
 		runNtsEnc(tags, a)
+	}
+	// what a decoder returns, encoded and decoded again; packets of the format with other nonce lengths
+	for k := 0; k < n/3; k++ {
+		b := encodeValid(r)
+		tags := "nt,redec"
+		switch r.Intn(6) {
+		case 0: // unknown fields between the known ones are dropped by the decoder
+			off := fieldOffsets(b)
+			at := off[r.Intn(len(off))]
+			u := extField(uint16(lib.Pick(r, 0x0704, 0x0004, 0x8204)), r.Bytes(4*r.Intn(20)))
+			if len(b)+len(u) <= 1024 {
+				b = append(append(append([]byte(nil), b[:at]...), u...), b[at:]...)
+			}
+		case 1: // a foreign packet whose values are not padded to a multiple of 4
+			pre := append(r.Bytes(48), rawField(0x0104, nonZero(r.Bytes(lib.Pick(r, 33, 34, 35, 37))))...)
+			pre = append(pre, rawField(0x0204, nonZero(r.Bytes(lib.Pick(r, 1, 2, 3, 101, 30))))...)
+			if r.Bool() {
+				pre = append(pre, rawField(0x0304, make([]byte, lib.Pick(r, 5, 101)))...)
+			}
+			b = append(pre, extField(0x0404, append([]byte{0, 16, 0, 16}, r.Bytes(32)...))[0:]...)
+			b[len(pre)+2], b[len(pre)+3] = 0, 40
+			tags = "nt,redec,foreign"
+		case 2:
+			b = b[:r.Intn(len(b)+1)]
+			tags = "redec,truncated"
+		}
+		runNtsRedec(tags, []Val{VBy(b), VBy(r.Bytes(lib.Pick(r, 32, 64))), VBy(r.Bytes(16))})
+	}
+	for k := 0; k < n/4; k++ {
+		prefix := append(r.Bytes(48), extField(0x0104, nonZero(r.Bytes(lib.Pick(r, 32, 36, 33))))...)
+		if r.Bool() {
+			prefix = append(prefix, extField(0x0204, nonZero(r.Bytes(lib.Pick(r, 100, 124, 3))))...)
+		}
+		nl := lib.Pick(r, 16, 16, 17, 18, 19, 20, 0, 1, 4, 12, 15, 32, r.Intn(40))
+		cl := lib.Pick(r, 16, 16, 20, 17, 0, 4, 100, 16+r.Intn(200))
+		tags := "nt,fmt"
+		if nl%4 != 0 {
+			tags = "fmt,noncepadding"
+		}
+		runNtsFmt(tags, []Val{VBy(prefix), VBy(nonZero(r.Bytes(nl))), VBy(nonZero(r.Bytes(cl))), VI(1)})
 	}
 	// exactly at the size limit: 1024 fits, 1028 does not
 	for k := 0; k < 40; k++ {
@@ -579,6 +717,24 @@ func genNts(r *lib.Rng, thorough bool) {
 			tags += ",unknown"
 		}
 		wf := int64(1)
+		switch r.Intn(8) {
+		case 0: // the known kinds in another order (identifier not first)
+			for i := len(fields) - 1; i > 0; i-- {
+				j := r.Intn(i + 1)
+				fields[i], fields[j] = fields[j], fields[i]
+			}
+			tags += ",permuted"
+		case 1: // two identifiers: the later one wins
+			at := r.Intn(len(fields) + 1)
+			fields = append(fields[:at], append([][]byte{extField(0x0104, nonZero(r.Bytes(32)))}, fields[at:]...)...)
+			tags += ",twoids"
+		case 2: // an authenticator field in front of the real one: the decoder stops there
+			at := 1 + r.Intn(len(fields))
+			fake := extField(0x0404, append([]byte{0, 16, 0, 16}, r.Bytes(32)...))
+			fields = append(fields[:at], append([][]byte{fake}, fields[at:]...)...)
+			wf = 0
+			tags = "pos,twoauths"
+		}
 		prefix := r.Bytes(48)
 		for _, f := range fields {
 			prefix = append(prefix, f...)
